@@ -445,6 +445,10 @@ func runC07(r *vh.Rng, n int, w *vh.Writer) {
 		// literals of fixed documents are already in json.Marshal's spelling
 		docCase(d, []byte(s), "fixed_document", w)
 	}
+	// a top level that is not an object is refused (the model: into_eebus = None)
+	for _, s := range []string{`[1,2]`, `[]`, `[{"a":1}]`, `"s"`, `12`, `null`, `true`} {
+		docCase(parseDoc([]byte(s)), []byte(s), "fixed_document_not_an_object", w)
+	}
 	for _, s := range fixedWire {
 		bytesCase([]byte(s), "fixed_wire_text", w)
 	}
